@@ -16,11 +16,14 @@ ToPush == Ad("topush", 0, 0, 0, "topush")
 Buf(b) == Ad("buffer", 0, 0, 0, b)
 Integ(b) == Ad("integ", 0, 0, 0, b)
 
-TimeC(steps, off, ip, ins) == [kind |-> "time", steps |-> steps, off |-> off, ip |-> ip, ins |-> ins]
-PullC(ins) == [kind |-> "pull", steps |-> <<1>>, off |-> 0, ip |-> FALSE, ins |-> ins]
+TimeC(steps, off, ip, ins) == [kind |-> "time", steps |-> steps, off |-> off, ip |-> ip, ins |-> ins, u |-> "m", ws |-> FALSE]
+TimeCU(steps, off, u) == [kind |-> "time", steps |-> steps, off |-> off, ip |-> FALSE, ins |-> <<>>, u |-> u, ws |-> FALSE]
+PullC(ins) == [kind |-> "pull", steps |-> <<1>>, off |-> 0, ip |-> FALSE, ins |-> ins, u |-> "m", ws |-> FALSE]
+(* finam's WeightedSum merger: inputs value1, weight1, value2, weight2; pulls them initially *)
+WSumC(ins) == [kind |-> "pull", steps |-> <<1>>, off |-> 0, ip |-> TRUE, ins |-> ins, u |-> "m", ws |-> TRUE]
 Lk(src, chain) == [src |-> src, chain |-> chain]
 MkCfg(comps, order, end, zone, fam) ==
-  [comps |-> comps, order |-> order, end |-> end, zone |-> zone, fam |-> fam]
+  [comps |-> comps, order |-> order, end |-> end, zone |-> zone, fam |-> fam, tb |-> 1000]
 
 MaxStep(st) == SetMax({st[i] : i \in 1..Len(st)})
 
@@ -174,6 +177,18 @@ PullRingTail(u) ==
          ord, 7, "resolved", "pullringtail") :
      sa \in {<<1>>}, sb \in StepSeqs, ord \in Perms3}
 
+(* WeightedSum between four producers (value / weight pairs, the second    *)
+(* value possibly in km) and one or two readers that pull at the same times *)
+WSum(u) ==
+  {LET n == IF two THEN 7 ELSE 6
+       reader == TimeC(sc, 0, ip, <<Lk(5, <<>>)>>)
+   IN [MkCfg(<<TimeCU(s1, 0, "m"), TimeCU(s2, 0, ""), TimeCU(s3, o3, u3), TimeCU(<<1>>, 0, ""),
+              WSumC(<<Lk(1, <<>>), Lk(2, <<>>), Lk(3, c3), Lk(4, <<>>)>>), reader>>
+             \o (IF two THEN <<reader>> ELSE <<>>),
+             [i \in 1..n |-> IF rev THEN n + 1 - i ELSE i], 5, "dag", "wsum") EXCEPT !.tb = 10] :
+     s1 \in Steps1, s2 \in {<<1>>, <<2>>}, s3 \in {<<1>>, <<3>>}, o3 \in {0, 1}, u3 \in {"m", "km"},
+     c3 \in {<<>>, <<Fix(1)>>}, sc \in {<<1>>, <<2>>}, ip \in BOOLEAN, two \in BOOLEAN, rev \in BOOLEAN}
+
 (* cycles broken by dependency-breaking / pull-counting adapters *)
 RingBreak(u) ==
   {MkCfg(<<TimeC(sa, 0, FALSE, <<Lk(2, ca)>>), TimeC(sb, ob, FALSE, <<Lk(1, cb)>>)>>,
@@ -203,9 +218,10 @@ CfgSpace(f) ==
     [] f = "pullring"   -> PullRing(0)
     [] f = "pullringtail" -> PullRingTail(0)
     [] f = "ringbreak"  -> RingBreak(0)
+    [] f = "wsum"       -> WSum(0)
 
 AllFamilies == {"pair", "pairL", "pairXL", "pair3", "chain3t", "chain3p", "fanin2", "fanin1",
                 "fanout", "pullfanout", "diamondt", "diamondp", "pullchain2", "ring2", "ring3",
-                "ring4", "pullring", "pullringtail", "ringbreak"}
+                "ring4", "pullring", "pullringtail", "ringbreak", "wsum"}
 
 =============================================================================
